@@ -72,14 +72,26 @@ def r1_code_tables(ctx):
     R.check(ok, "C15.R1", "from:other", "from(c) = %r for c outside the table, and its code() is c" % (other,), "from(c) for an unlisted integer is %r; code(from(c)) != c" % (other,), "%s:%d" % (frm.file, frm.lo))
     # the constants From<i32> switches on are exactly the constants code() produces
     sw = set()
+
+    def _i32(v):
+        n = int(v)
+        return n - (1 << 32) if n >= 1 << 31 else n
     for b in frm.blocks:
+        if b.get("cleanup"):
+            continue
         t = b["term"]
         if t and t["t"] == "switch":
-            for v, _ in t["arms"]:
-                n = int(v)
-                if n >= 1 << 31:
-                    n -= 1 << 32
-                sw.add(n)
+            p_ = op_place(t["discr"])
+            # the branch of an `if code == K` is a bool switch: K is collected from the comparison below
+            if not (p_ is not None and not p_.get("p") and frm.locals[p_["l"]]["ty"] == "bool"):
+                for v, _ in t["arms"]:
+                    sw.add(_i32(v))
+        for st in b["st"]:
+            if st["s"] == "assign" and st["rv"]["k"] == "bin" and st["rv"]["op"] in ("Eq", "Ne"):
+                for side in ("a", "b"):
+                    k = op_const(st["rv"][side])
+                    if k is not None and "int" in k:
+                        sw.add(_i32(k["int"]))
     R.check(sw == consts, "C15.R1", "tables-agree", "From<i32> lists exactly the %d codes code() produces" % len(consts), "From<i32> lists %s but code() produces %s" % (sorted(sw - consts) or "-", sorted(consts - sw) or "-"), "%s:%d" % (frm.file, frm.lo))
     R.floor("C15.R1", len(units), 7, "unit variants of ErrorCode")
     # serde impls go through the two tables
